@@ -68,14 +68,16 @@ def run(ctx):
             c.add_violation(ctx, "double-spend:TOTPAuth|TOTPAuth",
                             "the same one-time code presented by %s simultaneous requests was honoured %s times" % (f[1] if len(f) > 1 else "?", f[0]),
                             {"op": o, "impl": a})
-    if ctx.tier == "thorough":
-        sl, slog, src = c.run_harness(ctx, "cmd/keymasterd", "C16Stress", ["stress 40"] * 3, timeout=1500, race=True, tag="s")
+    if True:   # race detector over the map-touching handlers: supporting search, both tiers (≈10 s when cached)
+        sl, slog, src = c.run_harness(ctx, "cmd/keymasterd", "C16Stress", ["stress 20"] if ctx.quick() else ["stress 40"] * 3,
+                                      timeout=1500, race=True, tag="s")
         hist["race_detector_runs"] = len(sl)
         if "WARNING: DATA RACE" in slog:
             # supporting search only, but a report from the race detector on the guarded state is a concrete failing schedule
             first = slog[slog.index("WARNING: DATA RACE"):][:1500]
-            c.add_violation(ctx, "data-race", "go test -race reported a data race in the handlers: " + first.splitlines()[2] if len(first.splitlines()) > 2 else first,
-                            {"race_report": first})
+            where = [l.strip() for l in first.splitlines() if "cmd/keymasterd/" in l and "zz_verif" not in l][:4]
+            c.add_violation(ctx, "data-race", "go test -race reported a data race between concurrently served requests at " + " / ".join(where),
+                            {"race_report": first, "stress": "TestVerifC16Stress: u2fSignRequest, u2fSignResponse, webauthnAuthLogin, webauthnAuthFinish, readyz, TOTPAuth for 4 users concurrently + the periodic cleanup"})
         elif src != 0:
             ctx.notes.append("race-detector stress run exited %d without a race report (ignored: supporting search)" % src)
     ctx.coverage.update({
